@@ -182,7 +182,7 @@ Record cinv (c : client) : Prop := {
   ci_toc : forall x, In x (ctoc c) -> In (x, GROUPP) (capp c)
 }.
 
-Lemma cinv_fresh ep t : cinv (mkC true ep t [] [] false [] [] [] [] None 0 [] false [] false false [] false).
+Lemma cinv_fresh ep t : cinv (mkC true ep t [] [] false [] [] [] [] None 0 [] false [] false false [] false [] false).
 Proof.
   constructor; simpl.
   - auto.
@@ -222,12 +222,15 @@ Proof. unfold gcinv. intros F H. rewrite Forall_forall in F. apply F. eapply nth
 (* an update that touches none of the fields the invariant reads *)
 Lemma cinv_only_other c c' :
   cinv c ->
-  cst c' = cst c -> queue c' = queue c -> inflight c' = inflight c -> deadb c' = deadb c ->
+  cst c' = cst c -> queue c' = queue c -> inflight c' = inflight c -> deadb c' = deadb c \/ deadb c' = [] ->
   kcur c' = kcur c -> accepted c' = accepted c -> capp c' = capp c -> pend_offs c' = pend_offs c ->
   lostb c' = lostb c -> ctoc c' = ctoc c -> cinv c'.
 Proof.
   intros [A B C Cs D E F G] H1 H2 H3 H4 H5 H6 H7 H8 H9 H10.
-  constructor; unfold bq; rewrite ?H1, ?H2, ?H3, ?H4, ?H5, ?H6, ?H7, ?H8, ?H9, ?H10; auto.
+  constructor; unfold bq; rewrite ?H1, ?H2, ?H3, ?H5, ?H6, ?H7, ?H8, ?H9, ?H10; auto.
+  - intros K. destruct (A K) as (A1 & A2 & A3 & A4). destruct H4 as [H4|H4]; rewrite H4; auto.
+  - intros b K. apply B. unfold bq. destruct H4 as [H4|H4]; rewrite H4 in K; [exact K|].
+    rewrite app_nil_r in K. rewrite !in_app_iff in *. tauto.
 Qed.
 
 (* a change of the state alone, to a state that is neither READY nor UNINITIALIZED *)
@@ -369,6 +372,15 @@ Lemma cinv_clear c t : cinv c -> t <> UNINIT -> t <> READY -> cinv (c_clear c t)
 Proof.
   intros [A B C Cs D E F G] N1 N2.
   constructor; unfold bq, c_clear; simpl; auto.
+  - intros [H|H]; congruence.
+  - intros l x [].
+  - intros H; discriminate.
+Qed.
+
+Lemma cinv_err c t : cinv c -> t <> UNINIT -> t <> READY -> cinv (c_err c t).
+Proof.
+  intros [A B C Cs D E F G] N1 N2.
+  constructor; unfold bq, c_err; simpl; auto.
   - intros [H|H]; congruence.
   - intros l x [].
   - intros H; discriminate.
@@ -611,39 +623,41 @@ Proof.
     unfold gcinv. simpl. apply Forall_set_nth; [exact G|]. apply cinv_complete; auto.
   - (* AError *)
     wc H c c' Hg Hf. use_client G Hg Hn Ha Ci.
-    assert (K : exists t, trans (cst c) ABORTABLE = Some t /\ c' = c_clear c t).
+    assert (K : exists t, trans (cst c) ABORTABLE = Some t /\ c' = c_err c t).
     { destruct (slot c) as [[[] ?]|]; try discriminate; destruct (cst c); try discriminate;
+        destruct (forallb _ (queue c)); try discriminate;
         match type of Hf with match ?t with _ => _ end = _ => destruct t eqn:T end; try discriminate;
         inversion Hf; eauto. }
     destruct K as (t & T & ->). pose proof (trans_target _ _ _ T). subst t.
-    apply gcinv_put; auto. apply cinv_clear; auto; discriminate.
+    apply gcinv_put; auto. apply cinv_err; auto; discriminate.
   - (* AFatal *)
     wc H c c' Hg Hf. use_client G Hg Hn Ha Ci.
+    destruct ((tcode (cst c) =? 1)%Z) eqn:Eu; [discriminate|].
     destruct (trans (cst c) FATAL) eqn:T; [|discriminate]. inv_some.
     pose proof (trans_target _ _ _ T). subst t.
     apply gcinv_put; auto. apply cinv_clear; auto; discriminate.
   - (* AKill *)
     destruct (nth_error (clients s) i) as [c|] eqn:Hn; [|discriminate]. inv_some.
-    apply gcinv_put; auto. eapply cinv_only_other; [eapply gcinv_get; eauto | reflexivity ..].
+    apply gcinv_put; auto. eapply cinv_only_other; [eapply gcinv_get; eauto | try reflexivity; auto ..].
   - (* TPick *)
     wc H c c' Hg Hf. use_client G Hg Hn Ha Ci.
     destruct (slot c); [discriminate|].
     destruct k as [k1|]; destruct (next_kind c) as [k2|]; try discriminate.
     + destruct (skind_eqb k1 k2); [|discriminate]. inv_some.
-      apply gcinv_put; auto. eapply cinv_only_other; [exact Ci | reflexivity ..].
+      apply gcinv_put; auto. eapply cinv_only_other; [exact Ci | try reflexivity; auto ..].
     + inv_some. apply gcinv_put; auto.
   - (* TDone *)
     wc H c c' Hg Hf. use_client G Hg Hn Ha Ci.
     destruct (slot c); [|discriminate]. inv_some.
-    apply gcinv_put; auto. eapply cinv_only_other; [exact Ci | reflexivity ..].
+    apply gcinv_put; auto. eapply cinv_only_other; [exact Ci | try reflexivity; auto ..].
   - (* CPartAdded *)
     wc H c c' Hg Hf. use_client G Hg Hn Ha Ci.
     destruct (slot_is c KParts SApplied && memn p (pend_parts c)); [|discriminate]. inv_some.
-    apply gcinv_put; auto. eapply cinv_only_other; [exact Ci | reflexivity ..].
+    apply gcinv_put; auto. eapply cinv_only_other; [exact Ci | try reflexivity; auto ..].
   - (* CGroupAdded *)
     wc H c c' Hg Hf. use_client G Hg Hn Ha Ci.
     destruct (slot_is c KOffs SApplied); [|discriminate]. inv_some.
-    apply gcinv_put; auto. eapply cinv_only_other; [exact Ci | reflexivity ..].
+    apply gcinv_put; auto. eapply cinv_only_other; [exact Ci | try reflexivity; auto ..].
   - (* COffCommitted *)
     wc H c c' Hg Hf. use_client G Hg Hn Ha Ci.
     destruct (slot_is c KToc SApplied && memn x (ctoc c)) eqn:Gd; [|discriminate].
@@ -655,8 +669,7 @@ Proof.
     wc H c c' Hg Hf. use_client G Hg Hn Ha Ci.
     destruct (take_bid b (queue c)) as [[x q]|] eqn:T; [|discriminate].
     destruct (head_of (bpart x) (queue c)); [|discriminate].
-    destruct (Nat.eqb (bid b0) b && negb (memn (bpart x) (pend_parts c))
-              && negb (has_part_q (bpart x) (inflight c))); [|discriminate]. inv_some.
+    match type of Hf with (if ?g then _ else _) = _ => destruct g; [|discriminate] end. inv_some.
     apply gcinv_put; auto. eapply cinv_drain; eauto.
   - (* SOk *)
     wc H c c' Hg Hf. use_client G Hg Hn Ha Ci.
@@ -684,15 +697,15 @@ Proof.
     destruct (slot_is c KParts SPicked && list_eqb ps (pend_parts c) && negb (is_niln ps)); [|discriminate].
     destruct v.
     + destruct (Nat.eqb (cep c) (eep (genv s)) && not_prep (genv s)); [|discriminate]. inv_some.
-      apply gcinv_put_env. apply gcinv_put; auto. eapply cinv_only_other; [exact Ci | reflexivity ..].
-    + inv_some. apply gcinv_put; auto. eapply cinv_only_other; [exact Ci | reflexivity ..].
+      apply gcinv_put_env. apply gcinv_put; auto. eapply cinv_only_other; [exact Ci | try reflexivity; auto ..].
+    + inv_some. apply gcinv_put; auto. eapply cinv_only_other; [exact Ci | try reflexivity; auto ..].
   - (* RAddOffs *)
     destruct (get s i) as [c|] eqn:Hg; [|discriminate]. use_client G Hg Hn Ha Ci.
     destruct (slot_is c KOffs SPicked); [|discriminate].
     destruct v.
     + destruct (Nat.eqb (cep c) (eep (genv s)) && not_prep (genv s)); [|discriminate]. inv_some.
-      apply gcinv_put_env. apply gcinv_put; auto. eapply cinv_only_other; [exact Ci | reflexivity ..].
-    + inv_some. apply gcinv_put; auto. eapply cinv_only_other; [exact Ci | reflexivity ..].
+      apply gcinv_put_env. apply gcinv_put; auto. eapply cinv_only_other; [exact Ci | try reflexivity; auto ..].
+    + inv_some. apply gcinv_put; auto. eapply cinv_only_other; [exact Ci | try reflexivity; auto ..].
   - (* RToc *)
     destruct (get s i) as [c|] eqn:Hg; [|discriminate]. use_client G Hg Hn Ha Ci.
     destruct (pend_offs c) as [|hd rest] eqn:P; [discriminate|].
@@ -701,7 +714,7 @@ Proof.
     destruct v.
     + destruct (Nat.eqb (cep c) (eep (genv s))); [|discriminate]. inv_some.
       apply gcinv_put_env. apply gcinv_put; auto. eapply cinv_toc; eauto.
-    + inv_some. apply gcinv_put; auto. eapply cinv_only_other; [exact Ci | reflexivity ..].
+    + inv_some. apply gcinv_put; auto. eapply cinv_only_other; [exact Ci | try reflexivity; auto ..].
   - (* REndTxn *)
     destruct (get s i) as [c|] eqn:Hg; [|discriminate]. use_client G Hg Hn Ha Ci.
     match type of H with (if ?g then _ else _) = _ => destruct g; [|discriminate] end.
@@ -709,10 +722,10 @@ Proof.
     + destruct (Nat.eqb (cep c) (eep (genv s))); [|discriminate].
       destruct (est (genv s)); try discriminate.
       * inv_some. apply gcinv_put_env. apply gcinv_put; auto.
-        eapply cinv_only_other; [exact Ci | reflexivity ..].
+        eapply cinv_only_other; [exact Ci | try reflexivity; auto ..].
       * destruct (Bool.eqb commit0 commit); [|discriminate]. inv_some. apply gcinv_put; auto.
-        eapply cinv_only_other; [exact Ci | reflexivity ..].
-    + inv_some. apply gcinv_put; auto. eapply cinv_only_other; [exact Ci | reflexivity ..].
+        eapply cinv_only_other; [exact Ci | try reflexivity; auto ..].
+    + inv_some. apply gcinv_put; auto. eapply cinv_only_other; [exact Ci | try reflexivity; auto ..].
   - (* RProduce *)
     destruct (nth_error (clients s) i) as [c|] eqn:Hn; [|discriminate].
     pose proof (gcinv_get _ _ _ G Hn) as Ci.
@@ -786,11 +799,13 @@ Proof.
 Qed.
 
 (* ---------- partitions: muting and registration -------------------------------------------------------- *)
-(* as long as error_transaction / fatal_error has not cleared the sets, every queued or in-flight
-   batch is for a partition that is registered (_txn_partitions) or waiting to be
-   (_pending_txn_partitions) *)
+(* unless fatal_error has cleared the sets: every queued batch is for a partition that is registered
+   (_txn_partitions) or waiting to be (_pending_txn_partitions), and every batch that was handed to
+   the sender is for a registered partition *)
 Definition pinv (c : client) : Prop :=
-  cerr c = false -> forall b, In b (queue c ++ inflight c) -> In (bpart b) (txn_parts c) \/ In (bpart b) (pend_parts c).
+  cerr c = false ->
+  (forall b, In b (queue c) -> In (bpart b) (txn_parts c) \/ In (bpart b) (pend_parts c)) /\
+  (forall b, In b (inflight c ++ deadb c) -> In (bpart b) (txn_parts c)).
 
 Definition gpinv (s : gstate) : Prop := Forall pinv (clients s).
 Lemma gpinv_get s i c : gpinv s -> nth_error (clients s) i = Some c -> pinv c.
@@ -799,8 +814,13 @@ Lemma gpinv_put s i c' : gpinv s -> pinv c' -> gpinv (put s i c').
 Proof. unfold gpinv, put. simpl. intros. apply Forall_set_nth; auto. Qed.
 
 Lemma pinv_same c c' : pinv c -> cerr c' = cerr c -> queue c' = queue c -> inflight c' = inflight c ->
+  deadb c' = deadb c \/ deadb c' = [] ->
   txn_parts c' = txn_parts c -> pend_parts c' = pend_parts c -> pinv c'.
-Proof. unfold pinv. intros P A B C D E. rewrite A, B, C, D, E. exact P. Qed.
+Proof.
+  unfold pinv. intros P A B C D E F. rewrite A, B, C, E, F. intros K. destruct (P K) as (P1 & P2).
+  split; [exact P1|]. intros b Hb. apply P2. destruct D as [D|D]; rewrite D in Hb; [exact Hb|].
+  rewrite app_nil_r in Hb. apply in_or_app. auto.
+Qed.
 
 Lemma head_of_in p q h : head_of p q = Some h -> In h q /\ bpart h = p.
 Proof.
@@ -808,6 +828,8 @@ Proof.
   - intros H. inversion H; subst. apply Nat.eqb_eq in E. auto.
   - intros H. destruct (IH H). auto.
 Qed.
+
+Ltac psame G Hn := eapply pinv_same; [eapply gpinv_get; eauto | try reflexivity; auto ..].
 
 Lemma step_gpinv s e s' : step s e = Some s' -> gcinv s -> gpinv s -> gpinv s'.
 Proof.
@@ -819,53 +841,45 @@ Proof.
     destruct (get s i) as [c|] eqn:Hg; [|discriminate]. destruct (get_some _ _ _ Hg) as (Hn & _).
     destruct (cst c) eqn:E0; try discriminate. destruct (trans UNINIT READY); [|discriminate].
     destruct (memn ep (eissued (genv s))); [|discriminate]. inv_some.
-    unfold gpinv. simpl. apply Forall_set_nth; [exact G|].
-    eapply pinv_same; [eapply gpinv_get; eauto | reflexivity ..].
+    unfold gpinv. simpl. apply Forall_set_nth; [exact G|]. psame G Hn.
   - (* ABegin *)
     wc H c c' Hg Hf. destruct (get_some _ _ _ Hg) as (Hn & _).
     destruct (slot c); [discriminate|]. destruct (trans (cst c) IN_TXN) eqn:T; [|discriminate]. inv_some.
     apply trans_in_txn in T. destruct (ci_idle _ (gcinv_get _ _ _ GC Hn) (or_intror T)) as (Q & I & _).
-    apply gpinv_put; auto. unfold pinv. simpl. rewrite Q, I. intros _ b [].
+    apply gpinv_put; auto. unfold pinv. simpl. rewrite Q, I. intros _. split; intros b [].
   - (* AAccept *)
     wc H c c' Hg Hf. destruct (get_some _ _ _ Hg) as (Hn & _). pose proof (gpinv_get _ _ _ G Hn) as P.
     destruct (cst c) eqn:S; try discriminate. destruct (Nat.eqb p GROUPP); [discriminate|].
     destruct newb.
     + destruct (has_part_q p (queue c) || has_bid b (queue c ++ inflight c ++ deadb c)); [discriminate|].
-      inv_some. apply gpinv_put; auto. unfold pinv. simpl. intros E b0 Hb.
-      rewrite <- app_assoc in Hb. apply in_app_or in Hb.
+      inv_some. apply gpinv_put; auto. unfold pinv. simpl. intros E. destruct (P E) as (P1 & P2).
+      split; [|exact P2]. intros b0 Hb.
       assert (K : forall q, In q (txn_parts c) \/ In q (pend_parts c) ->
                   In q (txn_parts c) \/ In q (if memn p (txn_parts c) || memn p (pend_parts c)
                                              then pend_parts c else pend_parts c ++ [p])).
       { intros q [K|K]; auto. right. destruct (memn p (txn_parts c) || memn p (pend_parts c)); auto.
         apply in_or_app. auto. }
-      destruct Hb as [Hb|Hb]; [apply K; apply P; auto; apply in_or_app; auto|].
-      simpl in Hb. destruct Hb as [Hb|Hb].
-      * subst b0. simpl. destruct (memn p (txn_parts c)) eqn:M1; simpl.
-        -- left. apply memn_In. exact M1.
-        -- right. destruct (memn p (pend_parts c)) eqn:M2; [apply memn_In; exact M2|].
-           apply in_or_app. right. left. reflexivity.
-      * apply K. apply P; auto. apply in_or_app. auto.
+      apply in_app_or in Hb. destruct Hb as [Hb|[Hb|[]]]; [apply K; auto|].
+      subst b0. simpl. destruct (memn p (txn_parts c)) eqn:M1; simpl.
+      * left. apply memn_In. exact M1.
+      * right. destruct (memn p (pend_parts c)) eqn:M2; [apply memn_In; exact M2|].
+        apply in_or_app. right. left. reflexivity.
     + destruct (snoc_item p b x (queue c)) eqn:SN; [|discriminate]. inv_some.
-      apply gpinv_put; auto. unfold pinv. simpl. intros E b0 Hb.
-      destruct (snoc_item_spec _ _ _ _ _ SN) as (S1 & _). apply in_app_or in Hb. destruct Hb as [Hb|Hb].
-      * destruct (S1 _ Hb) as [K|(b1 & K1 & _ & K2 & _)].
-        -- apply P; auto. apply in_or_app. auto.
-        -- rewrite K2. apply P; auto. apply in_or_app. auto.
-      * apply P; auto. apply in_or_app. auto.
+      apply gpinv_put; auto. unfold pinv. simpl. intros E. destruct (P E) as (P1 & P2).
+      split; [|exact P2]. intros b0 Hb.
+      destruct (snoc_item_spec _ _ _ _ _ SN) as (S1 & _).
+      destruct (S1 _ Hb) as [K|(b1 & K1 & _ & K2 & _)]; [auto|]. rewrite K2. auto.
   - (* AOffsets *)
     wc H c c' Hg Hf. destruct (get_some _ _ _ Hg) as (Hn & _).
-    destruct (cst c); try discriminate. inv_some.
-    apply gpinv_put; auto. eapply pinv_same; [eapply gpinv_get; eauto | reflexivity ..].
+    destruct (cst c); try discriminate. inv_some. apply gpinv_put; auto. psame G Hn.
   - (* ACommitting *)
     wc H c c' Hg Hf. destruct (get_some _ _ _ Hg) as (Hn & _).
     destruct (trans (cst c) COMMITTING) eqn:T.
-    + destruct (cst c); inv_some; apply gpinv_put; auto;
-        (eapply pinv_same; [eapply gpinv_get; eauto | reflexivity ..]).
+    + destruct (cst c); inv_some; apply gpinv_put; auto; psame G Hn.
     + destruct (cst c); discriminate.
   - (* AAborting *)
     wc H c c' Hg Hf. destruct (get_some _ _ _ Hg) as (Hn & _).
-    destruct (trans (cst c) ABORTING); [|discriminate]. inv_some.
-    apply gpinv_put; auto. eapply pinv_same; [eapply gpinv_get; eauto | reflexivity ..].
+    destruct (trans (cst c) ABORTING); [|discriminate]. inv_some. apply gpinv_put; auto. psame G Hn.
   - (* AComplete *)
     destruct (get s i) as [c|] eqn:Hg; [|discriminate]. destruct (get_some _ _ _ Hg) as (Hn & _).
     match type of H with (if ?g then _ else _) = _ => destruct g eqn:Gd; [|discriminate] end.
@@ -876,121 +890,129 @@ Proof.
     { destruct (cst c); try discriminate; destruct (trans _ READY) eqn:T; try discriminate;
         inversion H; eexists; reflexivity. }
     destruct K as (t & K). unfold gpinv. rewrite K. apply Forall_set_nth; [exact G|].
-    unfold pinv. simpl. rewrite Gq, Gi. intros _ b [].
+    unfold pinv. simpl. rewrite Gq, Gi. intros _. split; intros b [].
   - (* AError *)
-    wc H c c' Hg Hf.
-    assert (K : exists t, c' = c_clear c t).
+    wc H c c' Hg Hf. destruct (get_some _ _ _ Hg) as (Hn & _). pose proof (gpinv_get _ _ _ G Hn) as P.
+    assert (K : exists t, c' = c_err c t /\
+                forallb (fun b => negb (memn (bpart b) (pend_parts c))) (queue c) = true).
     { destruct (slot c) as [[[] ?]|]; try discriminate; destruct (cst c); try discriminate;
+        destruct (forallb _ (queue c)) eqn:Fq; try discriminate;
         match type of Hf with match ?t with _ => _ end = _ => destruct t eqn:T end; try discriminate;
         inversion Hf; eauto. }
-    destruct K as (t & ->). apply gpinv_put; auto. unfold pinv, c_clear. simpl. discriminate.
+    destruct K as (t & -> & Fq). apply gpinv_put; auto. unfold pinv, c_err. simpl.
+    intros E. destruct (P E) as (P1 & P2). split; [|exact P2].
+    intros b Hb. left. destruct (P1 b Hb) as [K|K]; [exact K|].
+    rewrite forallb_forall in Fq. specialize (Fq b Hb). apply memn_In in K. rewrite K in Fq. discriminate.
   - (* AFatal *)
-    wc H c c' Hg Hf. destruct (trans (cst c) FATAL); [|discriminate]. inv_some.
+    wc H c c' Hg Hf. destruct ((tcode (cst c) =? 1)%Z); [discriminate|].
+    destruct (trans (cst c) FATAL); [|discriminate]. inv_some.
     apply gpinv_put; auto. unfold pinv, c_clear. simpl. discriminate.
   - (* AKill *)
     destruct (nth_error (clients s) i) as [c|] eqn:Hn; [|discriminate]. inv_some.
-    apply gpinv_put; auto. eapply pinv_same; [eapply gpinv_get; eauto | reflexivity ..].
+    apply gpinv_put; auto. psame G Hn.
   - (* TPick *)
     wc H c c' Hg Hf. destruct (get_some _ _ _ Hg) as (Hn & _).
     destruct (slot c); [discriminate|].
     destruct k as [k1|]; destruct (next_kind c) as [k2|]; try discriminate.
-    + destruct (skind_eqb k1 k2); [|discriminate]. inv_some.
-      apply gpinv_put; auto. eapply pinv_same; [eapply gpinv_get; eauto | reflexivity ..].
+    + destruct (skind_eqb k1 k2); [|discriminate]. inv_some. apply gpinv_put; auto. psame G Hn.
     + inv_some. apply gpinv_put; auto. eapply gpinv_get; eauto.
   - (* TDone *)
     wc H c c' Hg Hf. destruct (get_some _ _ _ Hg) as (Hn & _).
-    destruct (slot c); [|discriminate]. inv_some.
-    apply gpinv_put; auto. eapply pinv_same; [eapply gpinv_get; eauto | reflexivity ..].
+    destruct (slot c); [|discriminate]. inv_some. apply gpinv_put; auto. psame G Hn.
   - (* CPartAdded *)
     wc H c c' Hg Hf. destruct (get_some _ _ _ Hg) as (Hn & _). pose proof (gpinv_get _ _ _ G Hn) as P.
-    destruct (slot_is c KParts SApplied && memn p (pend_parts c)); [|discriminate]. inv_some.
-    apply gpinv_put; auto. unfold pinv. simpl. intros E b Hb. destruct (P E b Hb) as [K|K].
-    + left. apply addn_In. auto.
-    + destruct (Nat.eq_dec (bpart b) p) as [->|N].
+    match type of Hf with (if ?g then _ else _) = _ => destruct g; [|discriminate] end. inv_some.
+    apply gpinv_put; auto. unfold pinv. simpl. intros E. destruct (P E) as (P1 & P2). split.
+    + intros b Hb. destruct (P1 b Hb) as [K|K].
       * left. apply addn_In. auto.
-      * right. apply remn_In. auto.
+      * destruct (Nat.eq_dec (bpart b) p) as [->|N].
+        -- left. apply addn_In. auto.
+        -- right. apply remn_In. auto.
+    + intros b Hb. apply addn_In. auto.
   - (* CGroupAdded *)
     wc H c c' Hg Hf. destruct (get_some _ _ _ Hg) as (Hn & _).
-    destruct (slot_is c KOffs SApplied); [|discriminate]. inv_some.
-    apply gpinv_put; auto. eapply pinv_same; [eapply gpinv_get; eauto | reflexivity ..].
+    destruct (slot_is c KOffs SApplied); [|discriminate]. inv_some. apply gpinv_put; auto. psame G Hn.
   - (* COffCommitted *)
     wc H c c' Hg Hf. destruct (get_some _ _ _ Hg) as (Hn & _).
     destruct (slot_is c KToc SApplied && memn x (ctoc c)); [|discriminate].
     destruct (pend_offs c) as [|items rest]; [discriminate|].
-    destruct (memn x items); [|discriminate]. inv_some.
-    apply gpinv_put; auto. eapply pinv_same; [eapply gpinv_get; eauto | reflexivity ..].
+    destruct (memn x items); [|discriminate]. inv_some. apply gpinv_put; auto. psame G Hn.
   - (* SDrain *)
     wc H c c' Hg Hf. destruct (get_some _ _ _ Hg) as (Hn & _). pose proof (gpinv_get _ _ _ G Hn) as P.
     destruct (take_bid b (queue c)) as [[x q]|] eqn:T; [|discriminate].
     destruct (head_of (bpart x) (queue c)); [|discriminate].
-    match type of Hf with (if ?g then _ else _) = _ => destruct g; [|discriminate] end. inv_some.
+    match type of Hf with (if ?g then _ else _) = _ => destruct g eqn:Gd; [|discriminate] end. inv_some.
+    apply andb_prop in Gd. destruct Gd as [Gd _]. apply andb_prop in Gd. destruct Gd as [Gd _].
+    apply andb_prop in Gd. destruct Gd as [_ Gm].
     destruct (take_bid_some _ _ _ _ T) as (T1 & _ & T3 & _).
-    apply gpinv_put; auto. unfold pinv. simpl. intros E b1 Hb. rewrite !in_app_iff in Hb. simpl in Hb.
-    destruct Hb as [Hb|[Hb|[Hb|[]]]].
-    + apply P; auto. apply in_or_app. auto.
-    + apply P; auto. apply in_or_app. auto.
-    + subst b1. simpl. apply P; auto. apply in_or_app. auto.
+    apply gpinv_put; auto. unfold pinv. simpl. intros E. destruct (P E) as (P1 & P2). split.
+    + intros b1 Hb. auto.
+    + intros b1 Hb. rewrite <- app_assoc in Hb. apply in_app_or in Hb. destruct Hb as [Hb|Hb].
+      * apply P2. apply in_or_app. auto.
+      * simpl in Hb. destruct Hb as [Hb|Hb].
+        -- subst b1. simpl. destruct (P1 x T1) as [K|K]; [exact K|].
+           apply memn_In in K. rewrite K in Gm. discriminate.
+        -- apply P2. apply in_or_app. auto.
   - (* SOk *)
     wc H c c' Hg Hf. destruct (get_some _ _ _ Hg) as (Hn & _). pose proof (gpinv_get _ _ _ G Hn) as P.
     destruct (take_bid b (inflight c)) as [[x f]|] eqn:T.
     + destruct (bapp x); [|discriminate]. inv_some. destruct (take_bid_some _ _ _ _ T) as (_ & _ & T3 & _).
-      apply gpinv_put; auto. unfold pinv. simpl. intros E b1 Hb. apply P; auto.
-      rewrite !in_app_iff in *. destruct Hb; auto.
+      apply gpinv_put; auto. unfold pinv. simpl. intros E. destruct (P E) as (P1 & P2). split; [exact P1|].
+      intros b1 Hb. apply P2. rewrite !in_app_iff in *. destruct Hb; auto.
     + destruct (cst c); try discriminate. destruct (has_bid b (deadb c)); [|discriminate]. inv_some.
       apply gpinv_put; auto.
   - (* SRetry *)
     wc H c c' Hg Hf. destruct (get_some _ _ _ Hg) as (Hn & _). pose proof (gpinv_get _ _ _ G Hn) as P.
     destruct (take_bid b (inflight c)) as [[x f]|] eqn:T.
     + inv_some. destruct (take_bid_some _ _ _ _ T) as (T1 & _ & T3 & _).
-      apply gpinv_put; auto. unfold pinv. simpl. intros E b1 Hb. apply P; auto.
-      apply in_or_app. destruct Hb as [Hb|Hb]; [subst b1; auto|].
-      apply in_app_or in Hb. destruct Hb as [Hb|Hb]; auto.
+      apply gpinv_put; auto. unfold pinv. simpl. intros E. destruct (P E) as (P1 & P2). split.
+      * intros b1 [Hb|Hb]; [subst b1; left; apply P2; apply in_or_app; auto | auto].
+      * intros b1 Hb. apply P2. rewrite !in_app_iff in *. destruct Hb; auto.
     + destruct (cst c); try discriminate. destruct (has_bid b (deadb c)); [|discriminate]. inv_some.
       apply gpinv_put; auto.
   - (* SFail *)
     wc H c c' Hg Hf. destruct (get_some _ _ _ Hg) as (Hn & _). pose proof (gpinv_get _ _ _ G Hn) as P.
     destruct (take_bid b (inflight c)) as [[x f]|] eqn:T.
-    + inv_some. destruct (take_bid_some _ _ _ _ T) as (_ & _ & T3 & _).
-      apply gpinv_put; auto. unfold pinv. simpl. intros E b1 Hb. apply P; auto.
-      rewrite !in_app_iff in *. destruct Hb; auto.
+    + inv_some. destruct (take_bid_some _ _ _ _ T) as (T1 & _ & T3 & _).
+      apply gpinv_put; auto. unfold pinv. simpl. intros E. destruct (P E) as (P1 & P2). split; [exact P1|].
+      intros b1 Hb. apply P2. rewrite !in_app_iff in *. simpl in Hb.
+      destruct Hb as [Hb|[Hb|[Hb|[]]]]; auto. subst; auto.
     + destruct (take_bid b (queue c)) as [[x q]|] eqn:T2.
       * inv_some. destruct (take_bid_some _ _ _ _ T2) as (_ & _ & T3 & _).
-        apply gpinv_put; auto. unfold pinv. simpl. intros E b1 Hb. apply P; auto.
-        rewrite !in_app_iff in *. destruct Hb; auto.
+        apply gpinv_put; auto. unfold pinv. simpl. intros E. destruct (P E) as (P1 & P2). split; [auto|exact P2].
       * destruct (cst c); try discriminate. destruct (has_bid b (deadb c)); [|discriminate]. inv_some.
         apply gpinv_put; auto.
   - (* RAddParts *)
     destruct (get s i) as [c|] eqn:Hg; [|discriminate]. destruct (get_some _ _ _ Hg) as (Hn & _).
-    destruct (slot_is c KParts SPicked && list_eqb ps (pend_parts c) && negb (is_niln ps)); [|discriminate].
+    match type of H with (if ?g then _ else _) = _ => destruct g; [|discriminate] end.
     destruct v.
     + destruct (Nat.eqb (cep c) (eep (genv s)) && not_prep (genv s)); [|discriminate]. inv_some.
-      apply (gpinv_put s i); auto. eapply pinv_same; [eapply gpinv_get; eauto | reflexivity ..].
-    + inv_some. apply gpinv_put; auto. eapply pinv_same; [eapply gpinv_get; eauto | reflexivity ..].
+      apply (gpinv_put s i); auto. psame G Hn.
+    + inv_some. apply gpinv_put; auto. psame G Hn.
   - (* RAddOffs *)
     destruct (get s i) as [c|] eqn:Hg; [|discriminate]. destruct (get_some _ _ _ Hg) as (Hn & _).
     destruct (slot_is c KOffs SPicked); [|discriminate].
     destruct v.
     + destruct (Nat.eqb (cep c) (eep (genv s)) && not_prep (genv s)); [|discriminate]. inv_some.
-      apply (gpinv_put s i); auto. eapply pinv_same; [eapply gpinv_get; eauto | reflexivity ..].
-    + inv_some. apply gpinv_put; auto. eapply pinv_same; [eapply gpinv_get; eauto | reflexivity ..].
+      apply (gpinv_put s i); auto. psame G Hn.
+    + inv_some. apply gpinv_put; auto. psame G Hn.
   - (* RToc *)
     destruct (get s i) as [c|] eqn:Hg; [|discriminate]. destruct (get_some _ _ _ Hg) as (Hn & _).
     destruct (pend_offs c) as [|hd rest]; [discriminate|].
     destruct (slot_is c KToc SPicked && list_eqb items hd); [|discriminate].
     destruct v.
     + destruct (Nat.eqb (cep c) (eep (genv s))); [|discriminate]. inv_some.
-      apply (gpinv_put s i); auto. eapply pinv_same; [eapply gpinv_get; eauto | reflexivity ..].
-    + inv_some. apply gpinv_put; auto. eapply pinv_same; [eapply gpinv_get; eauto | reflexivity ..].
+      apply (gpinv_put s i); auto. psame G Hn.
+    + inv_some. apply gpinv_put; auto. psame G Hn.
   - (* REndTxn *)
     destruct (get s i) as [c|] eqn:Hg; [|discriminate]. destruct (get_some _ _ _ Hg) as (Hn & _).
     match type of H with (if ?g then _ else _) = _ => destruct g; [|discriminate] end.
     destruct v.
     + destruct (Nat.eqb (cep c) (eep (genv s))); [|discriminate].
       destruct (est (genv s)); try discriminate.
-      * inv_some. apply (gpinv_put s i); auto. eapply pinv_same; [eapply gpinv_get; eauto | reflexivity ..].
-      * destruct (Bool.eqb commit0 commit); [|discriminate]. inv_some. apply gpinv_put; auto.
-        eapply pinv_same; [eapply gpinv_get; eauto | reflexivity ..].
-    + inv_some. apply gpinv_put; auto. eapply pinv_same; [eapply gpinv_get; eauto | reflexivity ..].
+      * inv_some. apply (gpinv_put s i); auto. psame G Hn.
+      * destruct (Bool.eqb commit0 commit); [|discriminate]. inv_some. apply gpinv_put; auto. psame G Hn.
+    + inv_some. apply gpinv_put; auto. psame G Hn.
   - (* RProduce *)
     destruct (nth_error (clients s) i) as [c|] eqn:Hn; [|discriminate].
     pose proof (gpinv_get _ _ _ G Hn) as P.
@@ -998,19 +1020,19 @@ Proof.
       [|discriminate].
     destruct v.
     + destruct (Nat.eqb (cep c) (eep (genv s))); [|discriminate]. inv_some.
-      apply (gpinv_put s i); auto. unfold pinv. simpl. intros E b1 Hb.
-      apply in_app_or in Hb. destruct Hb as [Hb|Hb].
-      * apply P; auto. apply in_or_app. auto.
+      apply (gpinv_put s i); auto. unfold pinv. simpl. intros E. destruct (P E) as (P1 & P2).
+      split; [exact P1|]. intros b1 Hb. apply in_app_or in Hb. destruct Hb as [Hb|Hb].
       * destruct (mark_app_spec _ _ _ Hb) as [K|(b2 & r2 & K1 & (_ & K3 & _) & _)].
-        -- apply P; auto. apply in_or_app. auto.
-        -- destruct (take_bid_some _ _ _ _ K1) as (K4 & _). rewrite K3. apply P; auto. apply in_or_app. auto.
+        -- apply P2. apply in_or_app. auto.
+        -- destruct (take_bid_some _ _ _ _ K1) as (K4 & _). rewrite K3. apply P2. apply in_or_app. auto.
+      * apply P2. apply in_or_app. auto.
     + inv_some. exact G.
 Qed.
 
 Lemma gpinv_g0 n : gpinv (g0 n).
 Proof.
   unfold gpinv, g0. simpl. apply Forall_forall. intros c H. apply repeat_spec in H. subst.
-  unfold pinv. simpl. intros _ b [].
+  unfold pinv. simpl. intros _. split; intros b [].
 Qed.
 
 Lemma run_gpinv : forall tr s s', run s tr = Some s' -> gcinv s -> gpinv s -> gcinv s' /\ gpinv s'.
@@ -1022,8 +1044,9 @@ Proof.
     + eapply step_gpinv; eauto.
 Qed.
 
-(* a batch is handed to a Produce request only for a partition whose AddPartitionsToTxn was
-   acknowledged in this transaction — unless error_transaction / fatal_error cleared the sets *)
+(* a batch is handed to a Produce request only for a partition that is not waiting for
+   AddPartitionsToTxn and whose AddPartitionsToTxn was acknowledged in this transaction (it is in
+   _txn_partitions) — unless fatal_error has cleared the sets *)
 Lemma drain_registered s i b s' :
   gpinv s -> step s (SDrain i b) = Some s' ->
   exists c x, get s i = Some c /\ In x (queue c) /\ bid x = b /\
@@ -1033,10 +1056,11 @@ Proof.
   destruct (take_bid b (queue c)) as [[x q]|] eqn:T; [|discriminate].
   destruct (head_of (bpart x) (queue c)); [|discriminate].
   match type of Hf with (if ?g then _ else _) = _ => destruct g eqn:Gd; [|discriminate] end.
-  apply andb_prop in Gd. destruct Gd as [Gd _]. apply andb_prop in Gd. destruct Gd as [_ Gm].
+  apply andb_prop in Gd. destruct Gd as [Gd _]. apply andb_prop in Gd. destruct Gd as [Gd _].
+  apply andb_prop in Gd. destruct Gd as [_ Gm].
   destruct (take_bid_some _ _ _ _ T) as (T1 & T2 & _).
   assert (N : ~ In (bpart x) (pend_parts c)).
   { intros K. apply memn_In in K. rewrite K in Gm. discriminate. }
   exists c, x. repeat split; auto.
-  intros E. destruct (gpinv_get _ _ _ G Hn E x) as [K|K]; [apply in_or_app; auto | exact K | contradiction].
+  intros E. destruct (gpinv_get _ _ _ G Hn E) as (P1 & _). destruct (P1 x T1) as [K|K]; [exact K | contradiction].
 Qed.
